@@ -230,6 +230,14 @@ pub async fn healthy_exchange(sock: &mut Sock, origin: u16) -> Result<Peer, Stri
     let peer = Peer::attach(sock, peer_type_for(ty), Some(ident.as_bytes()))
         .await
         .map_err(|e| format!("healthy {} peer could not complete its handshake: {e}", peer_type_for(ty)))?;
+    exchange_with(sock, &peer, origin).await?;
+    Ok(peer)
+}
+
+/// Exchange tagged messages with an already attached scripted peer in every
+/// direction the socket type supports.
+pub async fn exchange_with(sock: &mut Sock, peer: &Peer, origin: u16) -> Result<(), String> {
+    let ty = sock.ty();
     // ---- inbound
     match ty {
         "PULL" | "SUB" | "DEALER" | "ROUTER" | "REP" | "XPUB" => {
@@ -377,5 +385,5 @@ pub async fn healthy_exchange(sock: &mut Sock, origin: u16) -> Result<Peer, Stri
         }
         _ => {}
     }
-    Ok(peer)
+    Ok(())
 }
